@@ -230,6 +230,10 @@ func (m *model) execute(a string) (string, error) {
 		s.Created++
 		s.Edits++
 		return m.libAttach(b, s)
+	case "attach2":
+		s.Created++
+		s.Edits += 2
+		return m.libAttach2(b, s)
 	case "peer-edit":
 		s.Created++
 		return m.libPeer(true, s)
@@ -316,6 +320,54 @@ func (m *model) libAttach(b *bugInfo, s *st) (string, error) {
 		return errTag(err), nil
 	}
 	return "ok", nil
+}
+
+// libAttach2 stages TWO comments, each bringing its own new file, and writes them with ONE
+// Commit: a single pack (one git commit, one "extra" tree) then references files of several
+// operations, which is what a web UI user who comments twice before the cache flushes, or an
+// importer, produces. Without a bug it first files one (with a third file).
+func (m *model) libAttach2(b *bugInfo, s *st) (string, error) {
+	repo, rc, err := openCache(m.host())
+	if err != nil {
+		return errTag(err), nil
+	}
+	defer repo.Close()
+	defer rc.Close()
+	store := func(tag string) (repository.Hash, error) {
+		return rc.StoreData(append(append([]byte{}, pngBytes...), []byte(fmt.Sprintf("%s-%d", tag, s.Edits))...))
+	}
+	out := "ok"
+	var id string
+	if b == nil {
+		h0, err := store("first")
+		if err != nil {
+			return errTag(err), nil
+		}
+		nb, _, err := rc.Bugs().NewWithFiles(fmt.Sprintf("H%02d bug with files", s.Created), "see attachment", []repository.Hash{h0})
+		if err != nil {
+			return errTag(err), nil
+		}
+		id, out = nb.Id().String(), "ok-new"
+	} else {
+		id = b.Id
+	}
+	bc, err := rc.Bugs().ResolvePrefix(id)
+	if err != nil {
+		return errTag(err), nil
+	}
+	for i, tag := range []string{"second", "third"} {
+		h, err := store(tag)
+		if err != nil {
+			return errTag(err), nil
+		}
+		if _, _, err := bc.AddCommentWithFiles(fmt.Sprintf("comment %d with file %s", s.Edits-1+i, tag), []repository.Hash{h}); err != nil {
+			return errTag(err), nil
+		}
+	}
+	if err := bc.Commit(); err != nil {
+		return errTag(err), nil
+	}
+	return out, nil
 }
 
 // setupPeerIdentity gives the peer clone its own git-bug identity.
